@@ -1,5 +1,201 @@
 import Driver.Util
+import KavaVerif.Model.GenesisModels
+/-!
+  C14 driver.
+
+  * `c14.step plan step status detail` — a step of the round trip on the real app (export, per-module
+    ValidateGenesis, InitChain import, re-export, export twice, two imports): the predicate "the step
+    succeeds" is evaluated (PREDFAIL C14_<step> …).
+  * `c14.module plan module equal path a b` — original export vs re-export of one module, JSON-normalised.
+  * `c14.tx`, `c14.pos`, `c14.invariant` — the common follow-up block: same result codes, every balance and
+    position equal up to one base unit, all registered invariants hold on the imported app.
+  * `c14.pb`, `c14.savings`, `c14.swap`, `c14.bep3` — the exported (A) and re-exported (B) sections of the four
+    modelled modules: the Lean `validate` must accept A (the real import accepted it), the Lean `init` followed
+    by `export` must reproduce B (MISMATCH otherwise), and A = B is the property (PREDFAIL).
+-/
 namespace Drv.C14
+open KV.Gx
+
+/-- strip array indices from a JSON path so that findings have a stable tag -/
+def stripIdx (s : String) : String :=
+  let rec go (cs : List Char) (skip : Bool) (acc : List Char) : List Char :=
+    match cs with
+    | [] => acc.reverse
+    | '[' :: r => go r true acc
+    | ']' :: r => go r false acc
+    | c :: r => if skip then go r skip acc else go r skip (c :: acc)
+  String.ofList (go s.toList false [])
+
+def handleStep : Handler
+  | [plan, step, status, detail] =>
+    if status == "ok" then "ok"
+    else
+      let name :=
+        if step == "export" || step == "re-export" then "C14_export_succeeds"
+        else if step.startsWith "validate" then "C14_validation_passes"
+        else if step.startsWith "import" then "C14_import_succeeds"
+        else if step.startsWith "export-twice" then "C14_export_read_only"
+        else if step.startsWith "export-deterministic" then "C14_export_deterministic"
+        else "C14_behaviour"
+      predfail name s!"{step} plan={plan} {stripIdx detail}"
+  | _ => badInput "c14.step arity"
+
+def handleModule : Handler
+  | [plan, m, equal, path, a, b] =>
+    if equal == "1" then "ok"
+    else predfail "C14_reexport_identical" s!"module={m} path={stripIdx path} plan={plan} original={a} imported={b}"
+  | _ => badInput "c14.module arity"
+
+def handleTx : Handler
+  | [plan, idx, kind, a, b] =>
+    if a == b then "ok" else predfail "C14_behaviour" s!"tx-result kind={kind} original={a} imported={b} plan={plan} idx={idx}"
+  | _ => badInput "c14.tx arity"
+
+/-- decimal string (optionally with a fraction of up to 18 digits) → mantissa at 10^-18 -/
+def mantissa? (s : String) : Option Int :=
+  match s.splitOn "." with
+  | [i] => (int? i).map (· * 1000000000000000000)
+  | [i, f] =>
+    if f.length > 18 then none else
+    match int? i, nat? (f ++ String.ofList (List.replicate (18 - f.length) '0')) with
+    | some iv, some fv => some (if s.startsWith "-" then iv * 1000000000000000000 - fv else iv * 1000000000000000000 + fv)
+    | _, _ => none
+  | _ => none
+
+def handlePos : Handler
+  | [plan, key, a, b] =>
+    if a == b then "ok"
+    else
+      let cls := (key.splitOn "/").headD ""
+      match mantissa? a, mantissa? b with
+      | some x, some y =>
+        if (x - y).natAbs ≤ 1000000000000000000 then "ok"
+        else predfail "C14_behaviour" s!"position class={cls} key={key} original={a} imported={b} plan={plan}"
+      | _, _ => predfail "C14_behaviour" s!"position class={cls} key={key} original={a} imported={b} plan={plan}"
+  | _ => badInput "c14.pos arity"
+
+def handleInvariant : Handler
+  | [plan, wher, broken] =>
+    if broken == "-" then "ok" else predfail "C14_invariants_hold" s!"{wher} {broken} plan={plan}"
+  | _ => badInput "c14.invariant arity"
+
+/-- "k:v,k:v" → list of pairs -/
+def pairs? (s : String) (sep : String := ",") : Option (List (Nat × Int)) :=
+  (strs s sep).mapM fun e =>
+    match e.splitOn ":" with
+    | [k, v] => match nat? k, int? v with | some k, some v => some (k, v) | _, _ => none
+    | _ => none
+
+def handlePB : Handler
+  | [_plan, balA, remA, reserve, _, balB, remB] =>
+    match pairs? balA, int? remA, int? reserve, pairs? balB, int? remB with
+    | some ba, some ra, some rs, some bb, some rb =>
+      let g : PBGenesis := ⟨ba, ra⟩
+      if !pbValidate g then mismatch "pbValidate" "rejected" "accepted"
+      else match pbInit g rs with
+        | none => mismatch "pbInit" "rejected" "accepted"
+        | some s' =>
+          let e := pbExport s'
+          if e.balances != bb || e.remainder != rb then mismatch "pb-reexport" (toString (repr e)) s!"{balB} {remB}"
+          else if ba != bb || ra != rb then predfail "C14_reexport_identical" "module=precisebank model-tie"
+          else "ok"
+    | _, _, _, _, _ => badInput "c14.pb fields"
+  | _ => badInput "c14.pb arity"
+
+/-- "dep=denom:amt+denom:amt,…" -/
+def deposits? (s : String) : Option (List (Nat × Coins)) :=
+  (strs s).mapM fun e =>
+    match e.splitOn "=" with
+    | [k, cs] => match nat? k, pairs? cs "+" with | some k, some c => some (k, c) | _, _ => none
+    | _ => none
+
+def handleSavings : Handler
+  | [_plan, a, _, b] =>
+    match deposits? a, deposits? b with
+    | some da, some db =>
+      let g : SavGenesis := ⟨[], da⟩
+      if !savValidate g then mismatch "savValidate" "rejected" "accepted"
+      else match savInit g with
+        | none => mismatch "savInit" "rejected" "accepted"
+        | some s' =>
+          if (savExport s').deposits != db then mismatch "savings-reexport" (toString (repr (savExport s').deposits)) b
+          else if da != db then predfail "C14_reexport_identical" "module=savings model-tie"
+          else "ok"
+    | _, _ => badInput "c14.savings fields"
+  | _ => badInput "c14.savings arity"
+
+def pools? (s : String) : Option (List (Nat × Pool)) :=
+  (strs s).mapM fun e =>
+    match e.splitOn ":" with
+    | [k, a, b, t] => match nat? k, int? a, int? b, int? t with
+      | some k, some a, some b, some t => some (k, ⟨a, b, t⟩)
+      | _, _, _, _ => none
+    | _ => none
+
+def shares? (s : String) : Option (List (Nat × (Nat × Int))) :=
+  (strs s).mapM fun e =>
+    match e.splitOn ":" with
+    | [k, p, v] => match nat? k, nat? p, int? v with
+      | some k, some p, some v => some (k, (p, v))
+      | _, _, _ => none
+    | _ => none
+
+def handleSwap : Handler
+  | [_plan, pa, sa, _, pb, sb] =>
+    match pools? pa, shares? sa, pools? pb, shares? sb with
+    | some pa', some sa', some pb', some sb' =>
+      let g : SwapGenesis := ⟨pa', sa'⟩
+      if !swapValidate g then mismatch "swapValidate" "rejected" "accepted"
+      else match swapInit g with
+        | none => mismatch "swapInit" "rejected" "accepted"
+        | some s' =>
+          let e := swapExport s'
+          if e.pools != pb' || e.shares != sb' then mismatch "swap-reexport" (toString (repr e)) s!"{pb} {sb}"
+          else if pa' != pb' || sa' != sb' then predfail "C14_reexport_identical" "module=swap model-tie"
+          else "ok"
+    | _, _, _, _ => badInput "c14.swap fields"
+  | _ => badInput "c14.swap arity"
+
+def swaps? (s : String) : Option (List (Nat × Swap)) :=
+  (strs s).mapM fun e =>
+    match e.splitOn ":" with
+    | [k, inc, st, amt, eh, cb] =>
+      match nat? k, nat? inc, nat? st, int? amt, nat? eh, nat? cb with
+      | some k, some inc, some st, some amt, some eh, some cb =>
+        let status := if st == 0 then some Status.open_ else if st == 1 then some Status.completed
+                      else if st == 2 then some Status.expired else none
+        status.map fun st' => (k, ⟨inc == 1, st', amt, eh, cb⟩)
+      | _, _, _, _, _, _ => none
+    | _ => none
+
+def supply? (s : String) : Option Supply :=
+  match s.splitOn ":" with
+  | [i, o, c] => match int? i, int? o, int? c with
+    | some i, some o, some c => some ⟨i, o, c⟩
+    | _, _, _ => none
+  | _ => none
+
+def handleBep3 : Handler
+  | [_plan, _denom, sa, supa, limit, _, sb, supb] =>
+    match swaps? sa, supply? supa, int? limit, swaps? sb, supply? supb with
+    | some sa', some supa', some lim, some sb', some supb' =>
+      let g : Bep3Genesis := ⟨sa', supa', lim, 0⟩
+      if !bep3Validate g then mismatch "bep3Validate" "rejected" "accepted"
+      else match bep3Init g with
+        | none => mismatch "bep3Init" "rejected" "accepted"
+        | some s' =>
+          let e := bep3Export s'
+          if e.swaps != sb' || e.supply != supb' then mismatch "bep3-reexport" (toString (repr e.supply)) s!"{sb} {supb}"
+          else if s'.byBlock != byBlockOf sb' || s'.longterm != longtermOf sb' then mismatch "bep3-indexes" "model" "derived"
+          else if sa' != sb' || supa' != supb' then predfail "C14_reexport_identical" "module=bep3 model-tie"
+          else "ok"
+    | _, _, _, _, _ => badInput "c14.bep3 fields"
+  | _ => badInput "c14.bep3 arity"
+
 /-- handlers of property C14: (command name, handler) -/
-def handlers : List (String × Handler) := []
+def handlers : List (String × Handler) := [
+  ("c14.step", handleStep), ("c14.module", handleModule), ("c14.tx", handleTx), ("c14.pos", handlePos),
+  ("c14.invariant", handleInvariant), ("c14.pb", handlePB), ("c14.savings", handleSavings),
+  ("c14.swap", handleSwap), ("c14.bep3", handleBep3)
+]
 end Drv.C14
